@@ -96,10 +96,11 @@ impl From<ctap2::StatusCode> for WebauthnError {
 }
 
 /// Returns the ASCII (punycode) form of the domain name, which is the form the
-/// [`public_suffix::EffectiveTLDProvider`] works on. An already ASCII name is returned as is.
+/// [`public_suffix::EffectiveTLDProvider`] works on. Domain names are case-insensitive and the
+/// public suffix list is in lower case, so an already ASCII name is returned in lower case.
 fn encode_host(host: &str) -> Option<Cow<str>> {
     if host.is_ascii() {
-        Some(Cow::from(host))
+        Some(Cow::from(host.to_ascii_lowercase()))
     } else {
         idna::domain_to_ascii(host).ok().map(Cow::from)
     }
